@@ -247,7 +247,8 @@ def real_part(ctx, quick):
         nh = 41
         hung = {7} if rep % 2 == 0 else {3, 29}
         xfds = 300 if rep % 3 else 0          # two runs in three: every descriptor pdsh opens has a number above 300
-        script = "case %%h in %s) sleep 30;; *) echo out-%%h;; esac" % "|".join("h%d" % k for k in sorted(hung))
+        # healthy hosts: a shell that waits for a child of its own before it answers (needs SIGCHLD deliverable in the command)
+        script = "case %%h in %s) sleep 30;; *) sleep 0.2 & wait; echo out-%%h;; esac" % "|".join("h%d" % k for k in sorted(hung))
         t0 = time.time()
         rc, o, e = real.run(["-R", "exec", "-f", "32", "-u", "2", "-w", "h[0-%d]" % (nh - 1), "sh", "-c", script], timeout=25, extra_fds=xfds)
         dt = time.time() - t0
